@@ -254,7 +254,7 @@ def check_class(case, ctx, rng_key):
                     ("to_string_force_namespace", lambda o: o.to_string_force_namespace(
                         {"vf": "urn:verif:foreign", "vg": "urn:verif:foreign3", "vi": "http://www.w3.org/2001/XMLSchema-instance", "own": cls.c_namespace})),
                     ("str()", lambda o: str(o)),
-                    ("become_child_element_of", lambda o: _ET.tostring(_become(o), encoding="UTF-8"))]
+                    ("become_child_element_of", _become)]
             rng.shuffle(alts)
             for aname, afn in alts:
                 try:
@@ -329,10 +329,13 @@ def check_class(case, ctx, rng_key):
 
 
 def _become(o):
-    import xml.etree.ElementTree as _ET
-    holder = _ET.Element("holder")
-    o.become_child_element_of(holder)
-    return holder[0]
+    """the object as the package itself puts it into an envelope (pack.make_soap_enveloped_saml_thingy, instance path: become_child_element_of
+    the Body, then the envelope is serialised); the element's own octets are cut out of that text, not serialised a second time"""
+    from saml2_tophat import pack
+    from vlib import xmlkit as xk
+    d = xk.Doc(pack.make_soap_enveloped_saml_thingy(o))
+    body = [c for c in d.root.children if c.local == "Body"][0]
+    return d.standalone(body.children[0])
 
 
 def _canon(xml_bytes):
